@@ -57,7 +57,7 @@ def catalogue(obj, spec, rnd):
             v = i32new(m[f])
             add("module." + f, base + [f], (lambda r, a=attr, v=v: setattr(get_mod(r), a, v)), v, m[f])
         if t != "Output":
-            nm = rnd.choice(["edited", "é" * 20, "n" * 31 + "é", ""])
+            nm = rnd.choice(["edited", "é" * 20, "n" * 31 + "é", "", " padded ", "tab\t", "\u3000wide", "{x} }"])
             add("module.name", base + ["name"], lambda r, nm=nm: setattr(get_mod(r), "name", nm), B(nm), m["name"])
         if t != "Smooth":
             v = u32new(m["scale"])
@@ -72,7 +72,7 @@ def catalogue(obj, spec, rnd):
         add("module.midi_in_channel", base + ["midi_in_channel"], lambda r, v=v: setattr(get_mod(r), "midi_in_channel", v), v, m["midi_in_channel"])
         v = rnd.choice([k for k in range(17) if k != m["moch"]])
         add("module.midi_out_channel", base + ["moch"], lambda r, v=v: setattr(get_mod(r), "midi_out_channel", v), v, m["moch"])
-        nm = rnd.choice(["dev", "Ünï", "port 2"])
+        nm = rnd.choice(["dev", "Ünï", "port 2", " out ", "out\t"])
         add("module.midi_out_name", base + ["moname"], lambda r, nm=nm: setattr(get_mod(r), "midi_out_name", nm), [B(nm)], m["moname"])
         # controllers
         for ci, c in enumerate(st["ctls"], 1):
@@ -199,7 +199,7 @@ def catalogue(obj, spec, rnd):
                 for what in ("data", "format", "channels"):
                     tmp = _copy.deepcopy(live.samples[si])
                     if what == "data":
-                        nd = bytes(rnd.randrange(256) for _ in range(rnd.choice([0, 4, 8, 24, len(tmp.data) + 8])))
+                        nd = bytes(rnd.randrange(256) for _ in range(rnd.choice([0, 4, 5, 7, 8, 24, 27, len(tmp.data) + 8])))
                         if nd == tmp.data:
                             continue
                         tmp.data = nd
@@ -278,7 +278,7 @@ def catalogue(obj, spec, rnd):
             else:
                 v = i32new(pr[f])
                 add("project." + f, base + ["proj", f], lambda r, a=attr, v=v: setattr(get_p(r), a, v), v, pr[f])
-        nm = rnd.choice(["renamed", "Ünï", ""])
+        nm = rnd.choice(["renamed", "Ünï", "", " spaced ", "\ttabbed"])
         add("project.name", base + ["proj", "name"], lambda r, nm=nm: setattr(get_p(r), "name", nm), B(nm), pr["name"])
         v = rnd.choice([k for k in range(8) if k != pr["syncmidi"]])
         add("project.sync", base + ["proj", "syncmidi"], lambda r, v=v: setattr(get_p(r), "receive_sync_midi", v), v, pr["syncmidi"])
@@ -288,7 +288,7 @@ def catalogue(obj, spec, rnd):
             if pt["kind"] == "pattern":
                 v = i32new(pt["x"])
                 add("pattern.x", base + ["patterns", pi + 1, "x"], lambda r, pi=pi, v=v: setattr(get_p(r).patterns[pi], "x", v), v, pt["x"])
-                nm = rnd.choice(["intro", "pät"])
+                nm = rnd.choice(["intro", "pät", " intro ", "x\u3000"])
                 add("pattern.name", base + ["patterns", pi + 1, "name"], lambda r, pi=pi, nm=nm: setattr(get_p(r).patterns[pi], "name", nm), [B(nm)], pt["name"])
                 if pt["cells"]:
                     ci = rnd.randrange(len(pt["cells"]))
